@@ -119,9 +119,19 @@ Definition aa_at (t : astr) (i : nat) : option ascii := nth_error t i.
 Definition eval_translation (T : gtable) (l : loc) (tr : astr) (start : start_policy) (s : dna)
   : option evaluation :=
   let assume := match start with StartNone => false | _ => true end in
+  (* a first codon that the user declared as a start codon reads as Met even if the genetic table
+     does not list it as one (the codons restrict_nucleotides allows there) *)
+  let declared := match start with
+                  | StartCodons cs => dna_mem (firstn 3 (extract l s)) cs
+                  | _ => false
+                  end in
   match translate_start T (extract l s) assume with
   | None => None
-  | Some got =>
+  | Some got0 =>
+      let got := match got0 with
+                 | _ :: rest => if declared then "M"%char :: rest else got0
+                 | [] => got0
+                 end in
       let errs := indices_where (fun p => match snd p with
                                           | Some want => negb (Ascii.eqb (fst p) want)
                                           | None => true
